@@ -1,73 +1,76 @@
-//! scratch probe (will be replaced)
+//! scratch probe 2 (will be replaced)
 use grafeo_core::graph::lpg::LpgStore;
-use grafeo_core::graph::rdf::{RdfStore, Term, Triple};
-use grafeo_common::memory::buffer::{BufferManager, BufferManagerConfig, MemoryRegion};
-use std::sync::{Arc, Barrier, mpsc};
-use std::sync::atomic::{AtomicUsize, AtomicBool, Ordering};
-use std::time::{Duration, Instant};
+use grafeo_core::graph::Direction;
+use grafeo_common::types::{NodeId, EdgeId, Value, TxId};
+use grafeo_adapters::storage::wal::{WalManager, WalConfig, WalRecord, WalRecovery, DurabilityMode};
+use std::sync::{Arc, Barrier};
+use std::time::Instant;
 fn main() {
-    let t0 = Instant::now();
-    // label torn
-    let mut hung = 0; let mut torn = 0; let mut reps = 0;
-    for rep in 0..3000 {
-        reps += 1;
-        let store = Arc::new(LpgStore::new());
-        let id = store.create_node(&["A"]);
+    // edge create/delete race
+    let t0 = Instant::now(); let mut torn = 0;
+    for _ in 0..3000 {
+        let st = Arc::new(LpgStore::new());
+        let a = st.create_node(&["A"]); let b = st.create_node(&["A"]);
         let bar = Arc::new(Barrier::new(2));
-        let (tx, rx) = mpsc::channel::<u8>();
-        let s1 = store.clone(); let b1 = bar.clone(); let tx1 = tx.clone();
-        std::thread::spawn(move || { b1.wait(); s1.add_label(id, "B"); let _ = tx1.send(1); });
-        let s2 = store.clone(); let b2 = bar.clone(); let tx2 = tx.clone();
-        std::thread::spawn(move || { b2.wait(); s2.delete_node(id); let _ = tx2.send(2); });
-        let mut done = 0;
-        let dl = Instant::now() + Duration::from_millis(500);
-        while done < 2 { match rx.recv_timeout(dl.saturating_duration_since(Instant::now())) { Ok(_) => done += 1, Err(_) => break } }
-        if done < 2 { hung += 1; if hung > 20 {break;} continue; }
-        let inb = store.nodes_by_label("B");
-        if inb.iter().any(|i| store.get_node(*i).is_none()) { torn += 1; }
-    }
-    println!("label: reps={} hung={} torn={} elapsed={:?}", reps, hung, torn, t0.elapsed());
-    // rdf torn
-    let t1 = Instant::now();
-    let mut rtorn = 0;
-    for rep in 0..3000 {
-        let st = Arc::new(RdfStore::new());
-        let mk = |i: u32| Triple::new(Term::iri(format!("s{}", i % 2)), Term::iri("p"), Term::iri(format!("o{}", i)));
-        let bar = Arc::new(Barrier::new(2));
-        let s1 = st.clone(); let b1 = bar.clone();
-        let h1 = std::thread::spawn(move || { b1.wait(); for i in 0..8 { s1.insert(mk(i)); } });
-        let s2 = st.clone(); let b2 = bar.clone();
-        let h2 = std::thread::spawn(move || { b2.wait(); for i in 0..8 { s2.remove(&mk(i)); } });
+        let (s1,b1) = (st.clone(), bar.clone());
+        let h1 = std::thread::spawn(move || { b1.wait(); for _ in 0..4 { s1.create_edge(a, b, "R"); } });
+        let (s2,b2) = (st.clone(), bar.clone());
+        let h2 = std::thread::spawn(move || { b2.wait(); for e in 0..4 { for _ in 0..3 { s2.delete_edge(EdgeId::new(e)); } } });
         h1.join().unwrap(); h2.join().unwrap();
+        let live: Vec<u64> = (0..4).filter(|e| st.get_edge(EdgeId::new(*e)).is_some()).collect();
+        let mut adj: Vec<u64> = st.edges_from(a, Direction::Outgoing).map(|(_, e)| e.as_u64()).collect(); adj.sort();
+        let mut adjin: Vec<u64> = st.edges_to(b).into_iter().map(|(_, e)| e.as_u64()).collect(); adjin.sort();
+        if adj != live || adjin != live { torn += 1; }
+    }
+    println!("edge create/delete race: torn={} {:?}", torn, t0.elapsed());
+    // add_label / remove_label same node same label
+    let t0 = Instant::now(); let mut torn = 0;
+    for _ in 0..3000 {
+        let st = Arc::new(LpgStore::new());
+        let ids: Vec<NodeId> = (0..4).map(|_| st.create_node(&["A"])).collect();
+        let bar = Arc::new(Barrier::new(2));
+        let (s1,b1,i1) = (st.clone(), bar.clone(), ids.clone());
+        let h1 = std::thread::spawn(move || { b1.wait(); for n in &i1 { s1.add_label(*n, "B"); } });
+        let (s2,b2,i2) = (st.clone(), bar.clone(), ids.clone());
+        let h2 = std::thread::spawn(move || { b2.wait(); for n in &i2 { for _ in 0..3 { s2.remove_label(*n, "B"); } } });
+        h1.join().unwrap(); h2.join().unwrap();
+        let inb = st.nodes_by_label("B");
         let mut bad = false;
-        for i in 0..8 { let t = mk(i); let inp = st.contains(&t);
-            let ins = st.triples_with_subject(t.subject()).iter().filter(|x| x.as_ref()==&t).count();
-            let inpp = st.triples_with_predicate(t.predicate()).iter().filter(|x| x.as_ref()==&t).count();
-            let ino = st.triples_with_object(t.object()).iter().filter(|x| x.as_ref()==&t).count();
-            let e = if inp {1} else {0};
-            if ins != e || inpp != e || ino != e { bad = true; } }
-        if bad { rtorn += 1; }
+        for n in &ids { let has = st.get_node(*n).unwrap().has_label("B"); if has != inb.contains(n) { bad = true; } }
+        if bad { torn += 1; }
     }
-    println!("rdf: torn={} elapsed={:?}", rtorn, t1.elapsed());
-    // resize over limit
-    let t2 = Instant::now();
-    let mut over = 0; let mut maxseen = 0usize;
-    for rep in 0..300 {
-        let mut cfg = BufferManagerConfig::with_budget(1000); cfg.hard_limit_fraction = 1.0; cfg.soft_limit_fraction=1.0; cfg.evict_limit_fraction=1.0;
-        let bm = BufferManager::new(cfg);
-        let stop = Arc::new(AtomicBool::new(false));
-        let mx = Arc::new(AtomicUsize::new(0));
-        let w = { let bm = bm.clone(); let stop = stop.clone(); let mx = mx.clone(); std::thread::spawn(move || { while !stop.load(Ordering::Relaxed) { let a = bm.allocated(); mx.fetch_max(a, Ordering::Relaxed); } }) };
+    println!("add/remove label race: torn={} {:?}", torn, t0.elapsed());
+    // property index set/set race
+    let t0 = Instant::now(); let mut torn = 0;
+    for _ in 0..2000 {
+        let st = Arc::new(LpgStore::new());
+        st.create_property_index("k");
+        let n = st.create_node(&["A"]);
+        let bar = Arc::new(Barrier::new(2));
+        let (s1,b1) = (st.clone(), bar.clone());
+        let h1 = std::thread::spawn(move || { b1.wait(); for v in 0..4i64 { s1.set_node_property(n, "k", Value::from(v)); } });
+        let (s2,b2) = (st.clone(), bar.clone());
+        let h2 = std::thread::spawn(move || { b2.wait(); for v in 10..14i64 { s2.set_node_property(n, "k", Value::from(v)); } });
+        h1.join().unwrap(); h2.join().unwrap();
+        let cur = st.get_node_property(n, &"k".into()).unwrap();
+        let mut hits = 0; for v in (0..4i64).chain(10..14) { if st.find_nodes_by_property("k", &Value::from(v)).contains(&n) { hits += 1; if Value::from(v) != cur { } } }
+        if hits != 1 || !st.find_nodes_by_property("k", &cur).contains(&n) { torn += 1; }
+    }
+    println!("property index set/set race: torn={} {:?}", torn, t0.elapsed());
+    // WAL rotation order
+    let t0 = Instant::now(); let mut bad_order = 0; let mut lost = 0;
+    for rep in 0..60 {
+        let dir = tempfile::tempdir().unwrap();
+        let cfg = WalConfig { durability: DurabilityMode::NoSync, max_log_size: 64, compression: false };
+        let wal = Arc::new(WalManager::with_config(dir.path(), cfg).unwrap());
         let bar = Arc::new(Barrier::new(4));
-        let hs: Vec<_> = (0..4).map(|_| { let bm = bm.clone(); let bar = bar.clone(); let mx = mx.clone(); std::thread::spawn(move || {
-            let mut g = bm.try_allocate(10, MemoryRegion::ExecutionBuffers).unwrap();
-            bar.wait();
-            for _ in 0..200 { if g.resize(400) { mx.fetch_max(bm.allocated(), Ordering::Relaxed); std::thread::yield_now(); } g.resize(10); }
-        })}).collect();
+        let hs: Vec<_> = (0..4u64).map(|t| { let w = wal.clone(); let b = bar.clone(); std::thread::spawn(move || { b.wait(); for k in 0..50u64 { w.log(&WalRecord::DeleteNode { id: NodeId::new(t*1000+k) }).unwrap(); } }) }).collect();
         for h in hs { h.join().unwrap(); }
-        stop.store(true, Ordering::Relaxed); w.join().unwrap();
-        let m = mx.load(Ordering::Relaxed); if m > 1000 { over += 1; } maxseen = maxseen.max(m);
-        assert_eq!(bm.allocated(), 0);
+        wal.log(&WalRecord::TxCommit { tx_id: TxId::new(7) }).unwrap(); wal.sync().unwrap();
+        let recs = WalRecovery::new(dir.path()).recover().unwrap();
+        let ids: Vec<u64> = recs.iter().filter_map(|r| if let WalRecord::DeleteNode { id } = r { Some(id.as_u64()) } else { None }).collect();
+        if ids.len() != 200 { lost += 1; if lost <= 3 { println!("  rep {} recovered {} of 200", rep, ids.len()); } }
+        for t in 0..4u64 { let mine: Vec<u64> = ids.iter().copied().filter(|x| x / 1000 == t).collect(); if mine.windows(2).any(|w| w[0] > w[1]) { bad_order += 1; break; } }
     }
-    println!("resize: over={} maxseen={} elapsed={:?}", over, maxseen, t2.elapsed());
+    println!("wal rotation: lost={} bad_order={} {:?}", lost, bad_order, t0.elapsed());
 }
